@@ -67,6 +67,9 @@ type Search struct {
 	AllStates   [][]Op // shortest path of every state (only if KeepStates)
 	KeepStates  bool
 	Nontrivial  func(w *World) bool
+	// ExhaustPaths: histories of up to this many operations are never pruned by the state key.
+	ExhaustPaths      int
+	PathsBeyondDedupe int
 }
 
 type succ struct {
@@ -216,23 +219,33 @@ func (s *Search) Run() {
 		for fi := range out {
 			for _, sc := range out[fi] {
 				s.Transitions++
+				dup := false
 				if prev, ok := seen[sc.key]; ok {
+					dup = true
 					if prev.obs != sc.obs {
 						s.Part.Violate(s.Check, s.Part.Property+":path-dependent-observables",
 							fmt.Sprintf("the histories [%s] and [%s] reach the same entries, heads and clocks but expose different Values()/Heads()/manifest order", PathString(s.fullPath(prev.path)), PathString(s.fullPath(sc.path))),
 							Case{Config: s.Cfg.Name, Prefix: s.PrefixID, Path: s.fullPath(sc.path), Probe: "obs", Other: s.fullPath(prev.path)})
 					}
-					continue
+					// Histories up to ExhaustPaths operations are extended even when they reach a known
+					// canonical state: the canonical key cannot see state a changed tree may hide inside
+					// the objects (caches, memoised results), so short histories are enumerated path by path.
+					if len(sc.path) > s.ExhaustPaths {
+						continue
+					}
+					s.PathsBeyondDedupe++
+				} else {
+					seen[sc.key] = seenState{sc.obs, sc.path}
+					s.States++
+					if sc.nontr {
+						s.Part.Nontriv(sc.key)
+					}
+					if s.KeepStates {
+						s.AllStates = append(s.AllStates, sc.path)
+					}
 				}
-				seen[sc.key] = seenState{sc.obs, sc.path}
-				s.States++
-				if sc.nontr {
-					s.Part.Nontriv(sc.key)
-				}
+				_ = dup
 				next = append(next, sc.path)
-				if s.KeepStates {
-					s.AllStates = append(s.AllStates, sc.path)
-				}
 			}
 		}
 		s.MaxDepth = depth + 1
